@@ -17,7 +17,12 @@ import (
 // Translator for the finite syntactic inventories (DESIGN §4.2): parses /repo with
 // go/parser and emits Coq tables under coq/Gen/.
 
-const repoDir = "/repo"
+var repoDir = func() string {
+	if d := os.Getenv("VERIF_REPO"); d != "" {
+		return d
+	}
+	return "/repo"
+}()
 
 var siteTables = map[string]func(fset *token.FileSet, files map[string]*ast.File) (string, error){}
 
